@@ -17,8 +17,8 @@ V1 = {"H1", "S1", "S1b", "S1t", "L", "C", "P"}
 V2 = {"H2", "S2", "S2b", "S2t", "E", "G", "F", "O", "U"}
 
 
-def oracle(kinds, explicit):
-    ev1 = bool(set(kinds) & V1) or explicit == "gfa1"
+def oracle(kinds, explicit, dialect=None):
+    ev1 = bool(set(kinds) & V1) or explicit == "gfa1" or dialect == "rgfa"            # rGFA is a dialect of GFA1
     ev2 = bool(set(kinds) & V2) or explicit == "gfa2"
     if "H3" in kinds or "H11" in kinds or "H21" in kinds or (ev1 and ev2):          # only VN 1.0 and 2.0 name a version gfapy knows
         return "VersionError"
@@ -29,18 +29,23 @@ def oracle(kinds, explicit):
     return None          # version-neutral document: not pinned
 
 
-def build(lines, explicit, entry):
+def build(lines, explicit, entry, dialect=None):
+    kw = dict(dialect=dialect) if dialect else {}
+    return _build(lines, explicit, entry, kw)
+
+
+def _build(lines, explicit, entry, kw):
     if entry == "add0":
         # validation switched off: mixing versions is still refused with VersionError (the version rules are not a validation level)
-        g = gfapy.Gfa(version=explicit, vlevel=0) if explicit else gfapy.Gfa(vlevel=0)
+        g = gfapy.Gfa(version=explicit, vlevel=0, **kw) if explicit else gfapy.Gfa(vlevel=0, **kw)
         for l in lines:
             g.add_line(l)
         g.process_line_queue()
         return g
     if entry == "init":
-        g = gfapy.Gfa(lines, version=explicit, vlevel=1) if explicit else gfapy.Gfa(lines, vlevel=1)
+        g = gfapy.Gfa(lines, version=explicit, vlevel=1, **kw) if explicit else gfapy.Gfa(lines, vlevel=1, **kw)
     elif entry == "objects":
-        g = gfapy.Gfa(version=explicit, vlevel=1) if explicit else gfapy.Gfa(vlevel=1)
+        g = gfapy.Gfa(version=explicit, vlevel=1, **kw) if explicit else gfapy.Gfa(vlevel=1, **kw)
         for l in lines:
             g.add_line(gfapy.Line(l))               # the line arrives as a gfapy.Line instance (its class was chosen from the text alone)
         g.process_line_queue()
@@ -50,11 +55,11 @@ def build(lines, explicit, entry):
         try:
             with os.fdopen(fd, "w") as fh:
                 fh.write("\n".join(lines) + "\n")
-            g = gfapy.Gfa.from_file(path, version=explicit, vlevel=1) if explicit else gfapy.Gfa.from_file(path, vlevel=1)
+            g = gfapy.Gfa.from_file(path, version=explicit, vlevel=1, **kw) if explicit else gfapy.Gfa.from_file(path, vlevel=1, **kw)
         finally:
             os.unlink(path)
     else:
-        g = gfapy.Gfa(version=explicit, vlevel=1) if explicit else gfapy.Gfa(vlevel=1)
+        g = gfapy.Gfa(version=explicit, vlevel=1, **kw) if explicit else gfapy.Gfa(vlevel=1, **kw)
         for l in lines:
             g.add_line(l)
         g.process_line_queue()
@@ -62,15 +67,16 @@ def build(lines, explicit, entry):
 
 
 def check(case):
-    kinds, explicit = case
-    want = oracle(kinds, explicit)
+    kinds, explicit = case[:2]
+    dialect = case[2] if len(case) > 2 else None
+    want = oracle(kinds, explicit, dialect)
     fails = []
     outcomes = {}
     for perm in itertools.permutations(kinds):
         lines = [KIND[k] for k in perm]
         for entry in ("add", "init", "file", "objects", "add0"):
             try:
-                g = build(lines, explicit, entry)
+                g = build(lines, explicit, entry, dialect)
                 out = g.version
                 n = len([l for l in g.lines if not l.virtual])
                 nh = sum(1 for k in perm if k.startswith("H"))
@@ -80,12 +86,11 @@ def check(case):
                 out = "VersionError"
             except gfapy.Error as e:
                 out = "Error:" + type(e).__name__
-                if entry != "add":
-                    continue          # Gfa(list) / from_file also validate the references of the document: not a statement about the version
+                if entry != "add" or dialect:
+                    continue          # (the rules of the rGFA dialect about tags and headers are not statements about the version;) Gfa(list) / from_file also validate the references of the document: not a statement about the version
             except Exception as e:
                 out = "Foreign:" + type(e).__name__
-            if want is None and entry != "add":
-                continue              # version-neutral document: the entry points differ in when the default is applied (not pinned)
+            # (a version-neutral document: which version is assumed is not pinned, but it is the same through every entry point)
             outcomes.setdefault(out, lines)
     if len(outcomes) > 1:
         fails.append(dict(signature="C13:order-dependent:%s" % "/".join(sorted(map(str, outcomes))), what=str({k: v for k, v in outcomes.items()})[:600], case=dict(kinds=list(kinds), explicit=explicit),
@@ -94,7 +99,7 @@ def check(case):
         got = next(iter(outcomes))
         if got != want:
             fails.append(dict(signature="C13:wrong-outcome:want-%s:got-%s" % (want, got), what="%r explicit=%s -> %s" % (kinds, explicit, got), case=dict(kinds=list(kinds), explicit=explicit, lines=next(iter(outcomes.values())))))
-    return dict(key=(tuple(sorted(kinds)), explicit), nontrivial=want is not None, failures=fails, sample=dict(kinds=list(kinds), explicit=explicit, oracle=want, outcomes=list(outcomes)))
+    return dict(key=(tuple(sorted(kinds)), explicit, dialect), nontrivial=want is not None, failures=fails, sample=dict(kinds=list(kinds), explicit=explicit, oracle=want, outcomes=list(outcomes)))
 
 
 def cases(tier, seed):
@@ -105,6 +110,10 @@ def cases(tier, seed):
         for c in itertools.combinations(kinds, k):
             for explicit in (None, "gfa1", "gfa2"):
                 out.append((c, explicit))
+                if k <= 2:
+                    out.append((c, explicit, "rgfa"))
+    for explicit in (None, "gfa1", "gfa2"):
+        out.append(((), explicit)); out.append(((), explicit, "rgfa"))           # the empty document
     return out
 
 
@@ -114,6 +123,6 @@ if __name__ == "__main__":
     res = harness.run(cs, check,
                       rule="every set of <=%d of the %d line kinds (headers without/with VN 1.0/2.0/3.0/1.1/2.10, GFA1/GFA2 segment syntax without tags and with tags of every datatype, L C P, E G F O U, comment) x explicit version None/gfa1/gfa2, "
                            "in ALL orders of its lines (added one by one, then process_line_queue); oracle: version = function of the set of kinds, VersionError iff GFA1 and GFA2 evidence are mixed or the VN is unknown; "
-                           "every order and every entry point (add_line of strings one by one, of gfapy.Line instances one by one, Gfa(list), Gfa.from_file) must give the same outcome; every line is in the Gfa exactly once. one evaluation = one set with all its orders" % (3 if tier == "quick" else 4, len(KIND)),
+                           "the same with dialect='rgfa' for sets of <=2 kinds (GFA2 evidence -> VersionError, at level 0 too) and for the empty document; every order and every entry point (add_line of strings one by one, of gfapy.Line instances one by one, Gfa(list), Gfa.from_file) must give the same outcome; every line is in the Gfa exactly once. one evaluation = one set with all its orders" % (3 if tier == "quick" else 4, len(KIND)),
                       bound="sets of <=%d kinds, all permutations" % (3 if tier == "quick" else 4), exhaustive=True)
     harness.emit(res)
